@@ -397,6 +397,14 @@ func c04Run(t *testing.T, c *choice.Stream, r *Result, opt RunOpt, forced *c04Fo
 			if c.Bool("werr.big", 1, 4) {
 				werrK = c.Draw("werr.k2", 4000)
 			}
+			if c.Bool("werr.with-exception", 1, 3) {
+				// the server has refused the query (legally) by the time the client's
+				// write fails: whichever the client notices first, a half-written packet
+				// must not stay on an open connection
+				p := qStart + 1 + c.Draw("werr.exc.pos", len(script)-qStart-1)
+				ns := append([]simnet.Step{}, script[:p]...)
+				script = append(ns, simnet.Step{Label: "exception", Send: (&SPacket{Kind: "exception", Exc: DrawExceptionChain(c)}).Encode(cf)})
+			}
 		case "callback_err":
 			names := []string{"result", "progress", "profile", "events", "logs"}
 			if sc.kind == "insert" {
@@ -514,6 +522,18 @@ func c04Run(t *testing.T, c *choice.Stream, r *Result, opt RunOpt, forced *c04Fo
 				}
 			}
 		}
+		// The connection may have a history: an earlier query that the server refused
+		// with an exception leaves the client open, and nothing of it may colour how
+		// the next failure is handled.
+		prelude := forced == nil && c.Bool("prelude.exception", 1, 4)
+		if prelude {
+			nop := func(*refproto.ClientPacket) []byte { return nil }
+			pre := []simnet.Step{{Label: "pre:query", OnPacket: nop}, {Label: "pre:ext-end", OnPacket: nop},
+				{Label: "pre:exception", Send: (&SPacket{Kind: "exception", Exc: DrawExceptionChain(c)}).Encode(cf)}}
+			ns := append([]simnet.Step{}, script[:qStart]...)
+			ns = append(ns, pre...)
+			script = append(ns, script[qStart:]...)
+		}
 		srv := simnet.NewServer(cf.ServerRev, script)
 		srv.Auto = autoResponder(cf)
 		conn := e.W.NewConn(srv)
@@ -539,6 +559,14 @@ func c04Run(t *testing.T, c *choice.Stream, r *Result, opt RunOpt, forced *c04Fo
 			if err != nil {
 				r.Harness("fault-free handshake failed: %v (server parse error: %v)", err, srv.Parser.Err)
 				return
+			}
+			if prelude {
+				perr := cl.Do(ctx, ch.Query{Body: "SELECT refused"})
+				if !ch.IsException(perr) || cl.IsClosed() {
+					r.Harness("prelude query: err=%v closed=%v", perr, cl.IsClosed())
+					return
+				}
+				r.Fire("earlier_query_ended_by_exception")
 			}
 			if excStuckAfter >= 0 {
 				if conn.Window == 0 {
@@ -621,6 +649,13 @@ func c04Run(t *testing.T, c *choice.Stream, r *Result, opt RunOpt, forced *c04Fo
 			}
 			if excStuckAfter >= 0 {
 				conn.StopReadAt = -1 // the server comes back to life for the usability probe
+			}
+			if faultName == "write_err" && conn.Fired["write_err"] == 0 {
+				// the query ended (by the server's exception) before the write side broke:
+				// this run is an exception run, and the probe is not what the fault is for
+				conn.WriteErrAfter = -1
+				faultName = "exception"
+				r.Probe("write_fault_did_not_fire")
 			}
 			if ctxDeadline > 0 && probeLate {
 				// the next request comes when the failed query's deadline is long past
